@@ -1,9 +1,11 @@
 package main
 
 import (
+	"github.com/tsawler/tabula/zzharness/props/c01"
 	"github.com/tsawler/tabula/zzharness/props/c03"
 )
 
 func registerAll() {
+	register(c01.New())
 	register(c03.New())
 }
